@@ -149,7 +149,8 @@ impl Block {
                                 index + offset,
                                 TriviaKind::Whitespace.with_content("\n".repeat(gap)),
                             );
-                            offset += gap;
+                            // one whitespace trivia was inserted (whatever the number of lines)
+                            offset += 1;
                         }
                     }
 
